@@ -611,12 +611,27 @@ def rule_createbucket(ctx, rep, rid):
     oin = [ir.expr(f, v, 4) for v, _b in oph.d["inc"]]
     rep.check(("c", 1) in oin and ("bin", "add", ("phi", oph.id), ("c", 1)) in oin, rid, "create.levels", "levels 1, 2, ... in steps of 1", "level variable takes %s" % [ir.expr_str(x) for x in oin], [lv[0].where()])
     ob = [a for t, s_, a in pat.branch_edges_on(f, lambda a: len(a) == 3 and a[1] == ("phi", oph.id))]
-    okob = any(a[0] in ("ult", "uge") and ir.expr_contains(a[2], lambda z: z[0] == "call" and z[1].startswith("cds_lfht_get_count_order")) and ir.expr_contains(a[2], lambda z: z == ("c", 1)) for a in ob)
-    rep.check(okob, rid, "create.level-bound", "levels up to and including the order of the initial size", "level loop bound is %s" % [ir.atom_str(a) for a in ob][:2], [lv[0].where()])
-    for t, s_, a in pat.branch_edges_on(f, lambda a: len(a) == 3 and a[1] == ("phi", oph.id) and a[0] in ("ult", "uge")):
+    from .. import linear
+
+    def last_level(a):
+        """largest level the continue-condition admits, as an offset k from order(initial size): order < X + 1 and order <= X
+        both give 0; None when the bound is not order(size) + constant"""
+        n_ = linear.norm(a[2])
+        if n_ is None:
+            return None
+        rest = {t_: c_ for t_, c_ in n_.items() if t_ != 1}
+        if len(rest) != 1 or list(rest.values()) != [1] or "cds_lfht_get_count_order" not in str(list(rest)[0]):
+            return None
+        k = n_.get(1, 0)
+        return k - 1 if a[0] in ("ult", "uge") else (k if a[0] in ("ule", "ugt") else None)
+    lls = [last_level(a) for a in ob if a[0] in ("ult", "uge", "ule", "ugt")]
+    if not lls or None in lls:
+        raise Broken("create_bucket: level loop bound %s is not order(initial size) + constant" % [ir.atom_str(a) for a in ob][:2])
+    rep.check(all(k == 0 for k in lls), rid, "create.level-bound", "levels up to and including the order of the initial size", "level loop bound is %s" % [ir.atom_str(a) for a in ob][:2], [lv[0].where()])
+    for t, s_, a in pat.branch_edges_on(f, lambda a: len(a) == 3 and a[1] == ("phi", oph.id) and a[0] in ("ult", "uge", "ule", "ugt")):
         body = f.reach([f.blocks[s_].insts[0]], lv, include_start=True, avoid=lambda i, t=t: i is t)[0] is not None
-        rep.check(body == (a[0] == "ult"), rid, "create.level-polarity@%s" % a[0], "order < bound enters the level, order >= bound leaves", "the level loop %s when order %s its bound: no level beyond 0 is created" % (
-            "runs" if body else "ends", "<" if a[0] == "ult" else ">="), [t.where()])
+        rep.check(body == (a[0] in ("ult", "ule")), rid, "create.level-polarity@%s" % a[0], "order within the bound enters the level, beyond it leaves", "the level loop %s when order %s its bound: no level beyond 0 is created" % (
+            "runs" if body else "ends", "<" if a[0] in ("ult", "ule") else ">="), [t.where()])
     ln = ("bin", "shl", ("c", 1), ("bin", "add", ("phi", oph.id), ("c", -1)))
     ln2 = ("bin", "shl", ("c", 1), ("bin", "sub", ("phi", oph.id), ("c", 1)))
     inner = [c for c in ba if c not in b0]
